@@ -1,15 +1,32 @@
-"""C13 (bounded part; proved part to be added)."""
+"""C13 - replacement and hybrid solvers agree with a plain solver.  Mixed: ReplacementFrontend proved in isolation, histories bounded."""
+from vf.common import task
 from vf.props import _rtc
 
-LEVEL = "exploration"
-LEVEL_TEXT = ("Bounded stand-in only in this round (labelled bounded, never counted as proved): histories on the real solver classes judged by a "
-              "stateless reference; exact modes by equality with the reference, approximate modes by containment.")
-TECHNIQUE = "bounded run-time contracts on histories (stand-in)"
+LEVEL = "other"
+LEVEL_TEXT = ("Mixed.  PROVED: the real ReplacementFrontend (default safe settings) in isolation over a finite semantic universe, started in an "
+              "arbitrary state satisfying its representation invariant (every entry of _replacements and of _replacement_cache is implied by the "
+              "constraints; the constraints handed to the actual frontend have the models of the constraints that were added): every query method "
+              "hands the actual frontend a query that is equivalent to the original one on every model and returns its answer unchanged; _add "
+              "(equality, negation, other, batch) derives only implied replacements and keeps the actual frontend's model set equal to the "
+              "specification's; _replacement, downsize, remove/clear_replacements keep the invariant; _copy/_blank_copy give the branch its own "
+              "dictionaries.  replace_dict and the actual frontend are answered by contract.  BOUNDED (never counted as proved): operation "
+              "histories on the real SolverReplacement / SolverHybrid / SolverVSA classes judged by a stateless reference (exact modes by "
+              "equality, approximate modes by containment).")
+EXPLANATION = ("proved: 18 per-method obligations of ReplacementFrontend over a universe of 4 assignments and 2-bit values; bounded: histories "
+               "on the real solver classes under the option combinations")
+TECHNIQUE = "class-in-isolation deductive proof of ReplacementFrontend's representation invariant and query equivalence (pyvc, z3) + bounded run-time contracts on histories"
 RULE = _rtc.RTC_RULE
-FUNCTIONS = []
-TRUSTED = _rtc.RTC_TRUSTED
-ASSUMPTIONS = ["bounded histories; see rule"]
+M = "vf.contracts.replfront"
+FUNCTIONS = ["ReplacementFrontend." + m for m in ["eval", "batch_eval", "max", "min", "solution", "is_true", "is_false", "satisfiable", "_add", "add_replacement",
+                                                  "_replacement", "_replace_list", "_copy", "_blank_copy", "downsize", "remove_replacements", "clear_replacements"]]
+TRUSTED = _rtc.RTC_TRUSTED + ["contract of claripy.replace_dict (C08): the result agrees with the original wherever the dictionary's equalities hold",
+                              "contract of the actual frontend (records constraints, answers queries; its own correctness is C11)"]
+ASSUMPTIONS = ["ReplacementFrontend is parametric in the constraint language: the proof is over a universe of 4 assignments and 2-bit values",
+               "default safe settings only (auto_replace, not unsafe_replacement, not complex_auto_replace); user-supplied add_replacement() calls are outside the statement",
+               "HybridFrontend is covered by the bounded part only", "per-method contracts compose to histories by induction (stated, not mechanised)"]
 
 
 def tasks(tier, seed=0):
-    return _rtc.rtc_tasks("C13", tier, seed)
+    from vf.contracts import replfront
+    out = [task(M, "ob_replacement", f"replacement.{m}/equiv+inv", ["C13"] + (["C14"] if "copy" in m else []), method=m, tier=tier) for m in replfront.METHODS]
+    return out + _rtc.rtc_tasks("C13", tier, seed)
